@@ -3,6 +3,7 @@ mod c02;
 mod extract;
 mod c03;
 mod c04;
+mod c09;
 mod c14;
 mod c15;
 mod c16;
@@ -14,6 +15,7 @@ mod plonkrun;
 mod rec;
 mod rels;
 mod shapes;
+mod stdops;
 mod toy;
 mod util;
 
@@ -65,6 +67,7 @@ fn main() {
         "c02" => c02::main(rest),
         "c03" => c03::main(rest),
         "c04" => c04::main(rest),
+        "c09" => c09::main(rest),
         "c14" => c14::main(rest),
         "c15" => c15::main(rest),
         "c16" => c16::main(rest),
